@@ -254,7 +254,28 @@ func (in *Interp) intrinsic(fr *frame, fn *ssa.Function, args []Value, pos token
 		}
 		return app(SFP64, 0, "(_ to_fp 11 53)", t), true
 	case "sort.SliceStable", "sort.Slice":
-		in.sortSlice(fr, in.force(args[0]).V.(SliceV), args[1].(*Closure), pos)
+		sl := in.force(args[0]).V.(SliceV)
+		in.sortSlice(fr, sl, args[1].(*Closure), pos)
+		if full == "sort.Slice" && in.cfg.Params["unstablesort"] != 0 && len(sl.D) >= 2 {
+			// contract model of sort.Slice ("not guaranteed to be stable"): after the stable sort one
+			// adjacent pair of EQUAL elements may have swapped places (choice $unstableN = k > 0)
+			in.sortSeq++
+			k := in.chooseN(fmt.Sprintf("$unstable%d", in.sortSeq), len(sl.D))
+			if k > 0 {
+				less := args[1].(*Closure)
+				a := in.call(fr, less.Fn, []Value{ci(k - 1), ci(k)}, less.Free, pos).(*Term)
+				if in.branch(a) {
+					in.fail("infeasible", "not a tie")
+				}
+				b := in.call(fr, less.Fn, []Value{ci(k), ci(k - 1)}, less.Free, pos).(*Term)
+				if in.branch(b) {
+					in.fail("infeasible", "not a tie")
+				}
+				x, y := copyVal(sl.D[k]), copyVal(sl.D[k-1])
+				in.store(&sl.D[k], y, pos)
+				in.store(&sl.D[k-1], x, pos)
+			}
+		}
 		return nil, true
 	case "sort.Strings":
 		s := args[0].(SliceV)
